@@ -6,13 +6,16 @@
     variant <repo|fixed>
     key <metric> <ts> <bucketTs> <tags idx:val,…|-> <stags idx:str,…|->    starts the next row and makes it current
     sel <i>                              makes row i (0-based, in `key` order) current
+    every `ev` op ends with <cap> <redirect> <rounds> <evicted keys|->: what MapStringTop's draws did (see Draws)
+    fin <cap> <folded keys|->            FinishStringTop(cap) of the sampler path folded these entries into Tail
     ev c <top> <count> <host> <pick>
     ev v <top> <count> <vals q,…|-> <hist v:c,…|-> <host> <pick> <pct>
     ev p <top> <value> <count> <host> <pick> <pct>
     ev u <top> <count> <hashes value:h32,…> <host> <pick>
     cents <top> <m:w,…|->                observed ValueTDigest.Centroids() of that MultiValue at send time
     send <sf> <pct>
-    merge <host> <cmpc>                  cmpc=1: the aggregator digest is compared centroid by centroid, else by weight
+    merge <host> <cmpc> <maps str:int,…|->   host = the agent's host tag as the aggregator resolved it; maps = the string
+                                         mappings the aggregator knows; cmpc=1: digest compared centroid by centroid, else by weight
 -/
 import Driver.Common
 import SH.Model.Transfer
@@ -23,6 +26,7 @@ abbrev Q := Rat
 
 structure RowSt where
   row : Row Q := Row.empty ⟨0, 0, [], []⟩
+  sfLog2 : Nat := 0
   bucketTs : Nat := 0
   cents : List (Tag × List (Centroid Q)) := []
   item : Option (TLItem Q) := none
@@ -131,14 +135,36 @@ def showKey (k : Key) : String :=
 
 /-! steps -/
 
-def evStep (st : St) (top : Tag) (e : Event Q) : St × List String :=
-  match st.get? with
-  | none => (st, ["bad-op"])
-  | some rs =>
-    let r := rowEvent rs.row top e
-    let key := if top.isEmpty then Tag.none else top.normalize
-    let m := if top.isEmpty then r.tail else (r.top.lookup key).getD MultiValue.empty
-    (st.put { rs with row := r }, [showMV true ("mv " ++ showTag key) m])
+def parseTags? (s : String) : Option (List Tag) := (parseList s).mapM parseTag?
+
+/-- the draws of MapStringTop as observed by the harness: capacity, redirect flag, number of resample rounds, evicted keys
+    (all attributed to the last round; fold order = the listed order, max-counter-host draws `false`: rows that can
+    resample carry a single host tag) -/
+structure Draws where
+  cap : Nat
+  redirect : Bool
+  rounds : List (List (Tag × Bool))
+
+def parseDraws? (cap rd rounds ev : String) : Option Draws :=
+  match cap.toNat?, parseBool? rd, rounds.toNat?, parseTags? ev with
+  | some cap, some rd, some n, some ev =>
+    some ⟨cap, rd, if n = 0 then [] else List.replicate (n - 1) [] ++ [ev.map (fun k => (k, false))]⟩
+  | _, _, _, _ => none
+
+def evStep (st : St) (top : Tag) (e : Event Q) (d : Option Draws) : St × List String :=
+  match st.get?, d with
+  | some rs, some d =>
+    match rowEventCap d.cap ⟨rs.row, rs.sfLog2⟩ top e d.redirect d.rounds with
+    | none => (st, ["bad-draw"])
+    | some a =>
+      let r := a.row
+      let key := if top.isEmpty then Tag.none else top.normalize
+      let m := if top.isEmpty then r.tail
+        else match r.top.lookup key with
+          | some m => m
+          | none => if d.redirect && decide (0 < e.count) then r.tail else MultiValue.empty
+      (st.put { rs with row := r, sfLog2 := a.sfLog2 }, [showMV true ("mv " ++ showTag key) m])
+  | _, _ => (st, ["bad-op"])
 
 def lookupCents (cs : List (Tag × List (Centroid Q))) (t : Tag) : List (Centroid Q) := (cs.lookup t).getD []
 
@@ -154,23 +180,32 @@ def step (st : St) (toks : List String) : St × List String :=
       let k : Key := ⟨ts, metric, sparse 0 tags, sparse [] stags⟩
       ({ st with rows := st.rows.push { row := Row.empty k, bucketTs := bts }, cur := st.rows.size }, ["key " ++ showKey k])
     | _, _, _, _, _ => (st, ["bad-op"])
-  | ["ev", "c", top, count, host, pick] =>
+  | ["ev", "c", top, count, host, pick, cap, rd, rounds, evk] =>
     match parseTag? top, parseQ? count, parseTag? host, parseBool? pick with
-    | some top, some count, some host, some pick => evStep st top (.counter count host pick)
+    | some top, some count, some host, some pick => evStep st top (.counter count host pick) (parseDraws? cap rd rounds evk)
     | _, _, _, _ => (st, ["bad-op"])
-  | ["ev", "v", top, count, vals, hist, host, pick, pct] =>
+  | ["ev", "v", top, count, vals, hist, host, pick, pct, cap, rd, rounds, evk] =>
     match parseTag? top, parseQ? count, parseQList? vals, parsePairs? parseQ? parseQ? hist, parseTag? host, parseBool? pick, parseBool? pct with
     | some top, some count, some vals, some hist, some host, some pick, some pct =>
-      evStep st top (.values hist vals count host pick pct)
+      evStep st top (.values hist vals count host pick pct) (parseDraws? cap rd rounds evk)
     | _, _, _, _, _, _, _ => (st, ["bad-op"])
-  | ["ev", "p", top, value, count, host, pick, pct] =>
+  | ["ev", "p", top, value, count, host, pick, pct, cap, rd, rounds, evk] =>
     match parseTag? top, parseQ? value, parseQ? count, parseTag? host, parseBool? pick, parseBool? pct with
-    | some top, some value, some count, some host, some pick, some pct => evStep st top (.valuePct value count host pick pct)
+    | some top, some value, some count, some host, some pick, some pct =>
+      evStep st top (.valuePct value count host pick pct) (parseDraws? cap rd rounds evk)
     | _, _, _, _, _, _ => (st, ["bad-op"])
-  | ["ev", "u", top, count, hashes, host, pick] =>
+  | ["ev", "u", top, count, hashes, host, pick, cap, rd, rounds, evk] =>
     match parseTag? top, parseQ? count, parsePairs? parseQ? String.toNat? hashes, parseTag? host, parseBool? pick with
-    | some top, some count, some hashes, some host, some pick => evStep st top (.unique hashes count host pick)
+    | some top, some count, some hashes, some host, some pick =>
+      evStep st top (.unique hashes count host pick) (parseDraws? cap rd rounds evk)
     | _, _, _, _, _ => (st, ["bad-op"])
+  | ["fin", cap, evk] =>
+    match cap.toNat?, parseTags? evk, st.get? with
+    | some cap, some evk, some rs =>
+      match finishTop cap ⟨rs.row, rs.sfLog2⟩ (evk.map (fun k => (k, false))) with
+      | none => (st, ["bad-draw"])
+      | some a => (st.put { rs with row := a.row }, [s!"fin tops={a.row.top.length}"])
+    | _, _, _ => (st, ["bad-op"])
   | ["sel", i] =>
     match i.toNat? with
     | some i => if i < st.rows.size then ({ st with cur := i }, []) else (st, ["bad-op"])
@@ -185,12 +220,14 @@ def step (st : St) (toks : List String) : St × List String :=
       let it := rowToTL st.var rs.row rs.bucketTs sf pct (lookupCents rs.cents)
       (st.put { rs with item := some it }, showTLItem it)
     | _, _, _ => (st, ["bad-op"])
-  | ["merge", host, cmpc] =>
-    match parseTag? host, parseBool? cmpc, st.get?.bind (fun rs => rs.item.map (fun it => (rs, it))) with
-    | some host, some cmpc, some (rs, it) =>
-      let r := receive st.var it rs.bucketTs host
-      (st, [s!"agg key {showKey r.row.key} warn={(tsFromTL it.t rs.bucketTs).2} err={r.err}"] ++ showRowVals cmpc "agg" r.row)
-    | _, _, _ => (st, ["bad-op"])
+  | ["merge", host, cmpc, maps] =>
+    match parseTag? host, parseBool? cmpc, parsePairs? (fun s => some s.toList) String.toInt? maps,
+        st.get?.bind (fun rs => rs.item.map (fun it => (rs, it))) with
+    | some host, some cmpc, some maps, some (rs, it) =>
+      let mp : Str → Int := fun s => (maps.lookup s).getD 0
+      let r := receiveM st.var mp it rs.bucketTs host
+      (st, [s!"agg key {showKey r.row.key} warn={(tsFromTL it.t rs.bucketTs).2}"] ++ showRowVals cmpc "agg" r.row)
+    | _, _, _, _ => (st, ["bad-op"])
   | _ => (st, ["bad-op"])
 
 def main : IO Unit :=
